@@ -169,8 +169,7 @@ theorem filterMap_congr' {α β : Type} (f g : α → Option β) (l : List α) (
     rw [ih (fun x hx => h x (List.mem_cons_of_mem _ hx))]
 
 theorem recTime_length (t : Nat) : (recTime t).length = 7 := by
-  unfold recTime
-  rfl
+  simp [recTime]
 
 def identSize (id : Bytes) : Nat := 33 + id.length + (id.length + 1) % 2
 
@@ -183,8 +182,11 @@ theorem fileRecs_sizes (f : FileRef) (joliet : Bool) (F : Nat) :
     apply List.map_congr_left
     intro i _
     simp only [Function.comp]
-    split <;> split <;> rfl
-  · rfl
+    generalize f.size / multiExtentPart + (if f.size % multiExtentPart > 0 then 1 else 0) = parts
+    by_cases h : (i == parts - 1) = true
+    · simp only [h, if_true, DirRec.size]
+    · simp only [h, Bool.false_eq_true, if_false, DirRec.size]
+  · simp only [List.map_cons, List.map_nil, DirRec.size]
 
 theorem fileRecs_time (f : FileRef) (joliet : Bool) (F : Nat) : ∀ r ∈ fileRecs f joliet F, r.time.length = 7 := by
   intro r hr
